@@ -48,6 +48,8 @@ theorem argOKB_sound (a : Arg) (h : argOKB a = true) : argOK a := by
     simp only [argOKB, List.all_eq_true] at h
     intro p hp; exact operandOKB_sound _ (h p hp)
   | flags xs => trivial
+  | kw i => trivial
+  | okw o => trivial
 
 theorem matchesB_sound : ∀ (fs : List Slot) (as : List Arg), matchesB fs as = true → Matches fs as
   | [], [], _ => .nil
@@ -117,7 +119,38 @@ theorem matchesB_sound : ∀ (fs : List Slot) (as : List Arg), matchesB fs as = 
                 simp only [matchesB, Bool.and_eq_true, List.all_eq_true, decide_eq_true_eq] at h
                 exact .flagsTy ks xs t h.1.1 h.1.2 (matchesB_sound fs' as' h.2)
               | _ => simp [matchesB] at h
+          | kw ks2 =>
+            cases as with
+            | nil => simp [matchesB] at h
+            | cons b as' =>
+              cases b with
+              | kw i =>
+                simp only [matchesB, Bool.and_eq_true, List.all_eq_true, decide_eq_true_eq] at h
+                exact .flagsKw ks xs ks2 i h.1.1 h.1.2 (matchesB_sound fs' as' h.2)
+              | _ => simp [matchesB] at h
           | _ => simp [matchesB] at h
+      | _ => simp [matchesB] at h
+  | .kw ks :: fs, as, h => by
+    cases as with
+    | nil => simp [matchesB] at h
+    | cons a as =>
+      cases a with
+      | kw i =>
+        simp only [matchesB, Bool.and_eq_true, decide_eq_true_eq] at h
+        exact .kw ks i h.1 (matchesB_sound fs as h.2)
+      | _ => simp [matchesB] at h
+  | .okw ks :: fs, as, h => by
+    cases as with
+    | nil => simp [matchesB] at h
+    | cons a as =>
+      cases a with
+      | okw o =>
+        simp only [matchesB, Bool.and_eq_true] at h
+        refine .okw ks o ?_ (matchesB_sound fs as h.2)
+        intro i hi
+        cases o with
+        | none => simp at hi
+        | some j => simp at hi; subst hi; simpa using h.1
       | _ => simp [matchesB] at h
   | .cargs :: fs, as, h => by
     cases as with
@@ -252,6 +285,8 @@ theorem retypeArg_id (ge : GEnv) (e : List (Ident × Ty)) (a : Arg) (h : consist
   | nums ks => rfl
   | align a => rfl
   | flags xs => rfl
+  | kw i => rfl
+  | okw o => rfl
   | tyvals ixs =>
     simp only [consistentArg, List.all_eq_true] at h
     simp only [retypeArg]
